@@ -14,6 +14,11 @@
 (*                                                                              *)
 (* Toggles.  FixRace / FixSendall / FixCredit = FALSE is the pinned tree:        *)
 (*   FixRace    TRUE: the message is handed over inside the locked section       *)
+(*   HoldBack   TRUE (with FixRace = FALSE): the hand-over stays outside the lock *)
+(*              but data messages built and not yet handed over are counted       *)
+(*              (_sends_in_flight); EOF/CLOSE produced meanwhile are queued        *)
+(*              (_ctl_pending) and handed over by the last in-flight sender         *)
+(*              (_send_done) - no thread ever waits, the transport thread included  *)
 (*   FixSendall TRUE: sendall raises when send() returns 0                       *)
 (*   FixCredit  TRUE: discarded extended data (code # 1) is credited             *)
 (* Mut re-introduces a defect (sensitivity runs): "none" | "no_decrement" |      *)
@@ -34,7 +39,7 @@ CONSTANTS UsersA, UsersB,   \* user threads of each side (strings)
           ReadSizes,        \* nbytes arguments of recv
           Modes,            \* subset of {"block","timed","nonblock"}: channel timeout classes
           Loss,             \* TRUE: a side's transport may die
-          FixRace, FixSendall, FixCredit, Mut, SpinCap
+          FixRace, HoldBack, FixSendall, FixCredit, Mut, SpinCap
 
 Sides == {"A", "B"}
 Peer(X) == IF X = "A" THEN "B" ELSE "A"
@@ -71,6 +76,8 @@ VARIABLES
   win, thresh, maxpkt, peermax,
   \* ---- channel state per side (the attributes of paramiko.Channel)
   outwin, eofSent, eofRecv, closed, pclosed, linked, alive, sofar, buf, tmo,
+  \* ---- hold-back repair: data messages in flight and control messages queued behind them (per side)
+  inflight, ctlq,
   \* ---- user threads
   pc, op, left, pend, held, calls, ctx, last, spins,
   \* ---- transport thread per side, wires
@@ -84,7 +91,8 @@ tr   == <<tpc, tpend>>
 eobs == <<sent, granted, adjSent, nEof, nClose, afterCtl, bigMsg, lateEmit>>
 robs == <<consumed, leaked, closeSeen>>
 par  == <<win, thresh, maxpkt, peermax>>
-vars == <<par, chan, thr, tr, wire, eobs, robs>>
+hb   == <<inflight, ctlq>>
+vars == <<par, chan, hb, thr, tr, wire, eobs, robs>>
 
 (* both CLOSEs exchanged, seen from X: its own CLOSE is on the wire and the peer's was processed *)
 Released(X) == nClose[X] > 0 /\ closeSeen[X]
@@ -120,6 +128,7 @@ InitRest ==
   /\ eofSent = [X \in Sides |-> FALSE] /\ eofRecv = [X \in Sides |-> FALSE]
   /\ closed = [X \in Sides |-> FALSE] /\ pclosed = [X \in Sides |-> FALSE] /\ linked = [X \in Sides |-> TRUE]
   /\ alive = [X \in Sides |-> TRUE] /\ sofar = [X \in Sides |-> 0]
+  /\ inflight = [X \in Sides |-> 0] /\ ctlq = [X \in Sides |-> <<>>]
   /\ buf = [X \in Sides |-> [out |-> 0, err |-> 0]]
   /\ pc = [t \in Threads |-> "idle"] /\ op = [t \in Threads |-> "none"] /\ left = [t \in Threads |-> 0]
   /\ pend = [t \in Threads |-> <<>>] /\ held = [t \in Threads |-> 0] /\ calls = [t \in Threads |-> 0]
@@ -144,7 +153,7 @@ Start(t, o, c) ==
   /\ left' = [left EXCEPT ![t] = IF o \in SendOps THEN SendN ELSE 0]
   /\ calls' = [calls EXCEPT ![t] = IF t \in Daemons THEN 0 ELSE @ + 1]
   /\ ctx' = [ctx EXCEPT ![t] = [shut |-> ShutOnWire(X), rel |-> Released(X), code |-> c]]
-  /\ UNCHANGED <<pend, held, last, spins, chan, tr, robs>> /\ NoEmit
+  /\ UNCHANGED <<pend, held, last, spins, chan, hb, tr, robs>> /\ NoEmit
 
 \* the call of thread t ends with outcome o; lf = bytes of the argument not handed over
 Finish(t, o, lf) ==
@@ -162,7 +171,7 @@ SendReturns0(t) ==      \* send() returns 0: closed or eof_sent seen inside _wai
               ELSE /\ pc' = [pc EXCEPT ![t] = "send_lock"] /\ last' = last      \* while s: sent = self.send(s)
                    /\ spins' = [spins EXCEPT ![t] = Min(@ + 1, SpinCap)]
        ELSE Finish(t, "ret0", left[t]) /\ spins' = spins
-  /\ UNCHANGED <<op, left, pend, held, calls, ctx, chan, tr, robs>> /\ NoEmit
+  /\ UNCHANGED <<op, left, pend, held, calls, ctx, chan, hb, tr, robs>> /\ NoEmit
 
 SendReserve(t) ==
   LET X == Side(t)  k == Chunk(t, X) IN
@@ -171,11 +180,12 @@ SendReserve(t) ==
   /\ IF FixRace
        THEN Emit(X, <<DataMsg(t, k)>>, ctx[t].rel) /\ pend' = pend /\ pc' = [pc EXCEPT ![t] = "send_done"]
        ELSE NoEmit /\ pend' = [pend EXCEPT ![t] = <<DataMsg(t, k)>>] /\ pc' = [pc EXCEPT ![t] = "send_emit"]
+  /\ inflight' = [inflight EXCEPT ![X] = IF HoldBack /\ ~FixRace THEN @ + 1 ELSE @] /\ ctlq' = ctlq
   /\ UNCHANGED <<eofSent, eofRecv, closed, pclosed, linked, alive, sofar, buf, tmo>>
   /\ UNCHANGED <<op, held, calls, ctx, last, spins, tr, robs>>
 
 SendRaise(t) == /\ Finish(t, "raised", left[t])
-                /\ UNCHANGED <<op, left, pend, held, calls, ctx, spins, chan, tr, robs>> /\ NoEmit
+                /\ UNCHANGED <<op, left, pend, held, calls, ctx, spins, chan, hb, tr, robs>> /\ NoEmit
 
 SendEntry(t) ==
   LET X == Side(t) IN
@@ -185,7 +195,7 @@ SendEntry(t) ==
      ELSE IF outwin[X] = 0
        THEN IF tmo[X] = "nonblock" THEN SendRaise(t)              \* socket.timeout
             ELSE /\ pc' = [pc EXCEPT ![t] = "send_wait"]          \* out_buffer_cv.wait releases the lock
-                 /\ UNCHANGED <<op, left, pend, held, calls, ctx, last, spins, chan, tr, robs>> /\ NoEmit
+                 /\ UNCHANGED <<op, left, pend, held, calls, ctx, last, spins, chan, hb, tr, robs>> /\ NoEmit
      ELSE SendReserve(t)
 
 SendWake(t) ==          \* woken by _window_adjust / _set_closed / (eof_sent is only seen after a wake-up)
@@ -199,15 +209,32 @@ SendTimer(t) ==         \* the timed wait expires: socket.timeout
 SendEmit(t) ==          \* after the lock was released: transport._send_user_message(m)
   /\ pc[t] = "send_emit"
   /\ Emit(Side(t), pend[t], ctx[t].rel)
-  /\ pend' = [pend EXCEPT ![t] = <<>>] /\ pc' = [pc EXCEPT ![t] = "send_done"]
-  /\ UNCHANGED <<op, left, held, calls, ctx, last, spins, chan, tr, robs>>
+  /\ pend' = [pend EXCEPT ![t] = <<>>]
+  /\ pc' = [pc EXCEPT ![t] = IF HoldBack /\ ~FixRace THEN "send_fin" ELSE "send_done"]
+  /\ UNCHANGED <<op, left, held, calls, ctx, last, spins, chan, hb, tr, robs>>
+
+SendFin(t) ==           \* HoldBack: _send_done, locked: one hand-over less; the last one takes the queued EOF/CLOSE along
+  LET X == Side(t) IN
+  /\ pc[t] = "send_fin"
+  /\ inflight' = [inflight EXCEPT ![X] = @ - 1]
+  /\ IF inflight[X] > 1 \/ ctlq[X] = <<>>
+       THEN ctlq' = ctlq /\ pend' = pend /\ pc' = [pc EXCEPT ![t] = "send_done"]
+       ELSE ctlq' = [ctlq EXCEPT ![X] = <<>>] /\ pend' = [pend EXCEPT ![t] = ctlq[X]] /\ pc' = [pc EXCEPT ![t] = "flush_emit"]
+  /\ UNCHANGED <<op, left, held, calls, ctx, last, spins, chan, tr, robs>> /\ NoEmit
+
+FlushEmit(t) ==         \* HoldBack: _send_done, after the lock: for m in msgs: _send_user_message(m)
+  /\ pc[t] = "flush_emit"
+  /\ Emit(Side(t), <<Head(pend[t])>>, FALSE)
+  /\ pend' = [pend EXCEPT ![t] = Tail(@)]
+  /\ pc' = [pc EXCEPT ![t] = IF Len(pend[t]) = 1 THEN "send_done" ELSE "flush_emit"]
+  /\ UNCHANGED <<op, left, held, calls, ctx, last, spins, chan, hb, tr, robs>>
 
 SendDone(t) ==
   /\ pc[t] = "send_done"
   /\ IF op[t] \in AllOps /\ left[t] > 0 /\ Mut # "early_return"
        THEN pc' = [pc EXCEPT ![t] = "send_lock"] /\ last' = last
        ELSE Finish(t, "returned", left[t])
-  /\ UNCHANGED <<op, left, pend, held, calls, ctx, spins, chan, tr, robs>> /\ NoEmit
+  /\ UNCHANGED <<op, left, pend, held, calls, ctx, spins, chan, hb, tr, robs>> /\ NoEmit
 
 (* Channel.recv / recv_stderr: BufferedPipe.read, then _check_add_window, then the adjust is handed over *)
 Kind(t) == IF op[t] = "recv_err" THEN "err" ELSE "out"
@@ -221,6 +248,7 @@ RecvRead(t, n) ==
   /\ pc' = [pc EXCEPT ![t] = "recv_ack"]
   /\ UNCHANGED <<outwin, eofSent, eofRecv, closed, pclosed, linked, alive, sofar, tmo>>
   /\ UNCHANGED <<op, left, pend, calls, ctx, last, spins, tr, leaked, closeSeen>> /\ NoEmit
+  /\ UNCHANGED hb
 
 RecvEmpty(t) ==         \* pipe closed and drained: b"" (then _check_add_window(0));  non-blocking, nothing there: socket.timeout
   LET X == Side(t) IN
@@ -228,12 +256,14 @@ RecvEmpty(t) ==         \* pipe closed and drained: b"" (then _check_add_window(
   /\ IF pclosed[X] THEN pc' = [pc EXCEPT ![t] = "recv_ack"] /\ last' = last
                    ELSE Finish(t, "raised", 0)
   /\ UNCHANGED <<op, left, pend, held, calls, ctx, spins, chan, tr, robs>> /\ NoEmit
+  /\ UNCHANGED hb
 
 RecvTimer(t) ==
   LET X == Side(t) IN
   /\ pc[t] = "recv_read" /\ buf[X][Kind(t)] = 0 /\ ~pclosed[X] /\ tmo[X] = "timed"
   /\ Finish(t, "raised", 0)
   /\ UNCHANGED <<op, left, pend, held, calls, ctx, spins, chan, tr, robs>> /\ NoEmit
+  /\ UNCHANGED hb
 
 OverThresh(X, s) == IF Mut = "thresh_lt" THEN s >= thresh[X] ELSE s > thresh[X]
 \* _check_add_window(n) for side X: <<new sofar, ack>>
@@ -252,6 +282,7 @@ RecvAck(t) ==
                       /\ pc' = [pc EXCEPT ![t] = "recv_emit"] /\ last' = last
   /\ UNCHANGED <<outwin, eofSent, eofRecv, closed, pclosed, linked, alive, buf, tmo>>
   /\ UNCHANGED <<op, left, calls, ctx, spins, tr, robs>> /\ NoEmit
+  /\ UNCHANGED hb
 
 RecvEmit(t) ==
   /\ pc[t] = "recv_emit"
@@ -259,8 +290,10 @@ RecvEmit(t) ==
   /\ pend' = [pend EXCEPT ![t] = <<>>]
   /\ Finish(t, "returned", 0)
   /\ UNCHANGED <<op, left, held, calls, ctx, spins, chan, tr, robs>>
+  /\ UNCHANGED hb
 
 (* close(), shutdown(1|2): locked section builds EOF / CLOSE, emitted after the lock is released *)
+Held(X) == HoldBack /\ ~FixRace /\ inflight[X] > 0
 CtlMsgs(X, withClose) ==
   (IF eofSent[X] /\ Mut # "eof_twice" THEN <<>> ELSE <<Msg("EOF", 0, 0)>>)
   \o (IF withClose THEN <<Msg("CLOSE", 0, 0)>> ELSE <<>>)
@@ -269,13 +302,16 @@ CloseLocked(t) ==
   LET X == Side(t)  ms == CtlMsgs(X, TRUE) IN
   /\ pc[t] = "close_lock"
   /\ IF closed[X]
-       THEN Finish(t, "returned", 0) /\ UNCHANGED <<pend, chan>> /\ NoEmit
+       THEN Finish(t, "returned", 0) /\ UNCHANGED <<pend, chan, hb>> /\ NoEmit
        ELSE /\ eofSent' = [eofSent EXCEPT ![X] = TRUE]
             /\ closed' = [closed EXCEPT ![X] = TRUE] /\ pclosed' = [pclosed EXCEPT ![X] = TRUE]
-            /\ UNCHANGED <<outwin, eofRecv, linked, alive, sofar, buf, tmo>>
-            /\ IF FixRace THEN Emit(X, ms, ctx[t].rel) /\ Finish(t, "returned", 0) /\ pend' = pend
-                          ELSE NoEmit /\ pend' = [pend EXCEPT ![t] = ms]
-                               /\ pc' = [pc EXCEPT ![t] = "ctl_emit"] /\ last' = last
+            /\ UNCHANGED <<outwin, eofRecv, linked, alive, sofar, buf, tmo, inflight>>
+            /\ IF Held(X)                     \* _send_eof / _close_internal queue behind the data still on its way
+                 THEN ctlq' = [ctlq EXCEPT ![X] = @ \o ms] /\ NoEmit /\ Finish(t, "returned", 0) /\ pend' = pend
+               ELSE /\ ctlq' = ctlq
+                    /\ IF FixRace THEN Emit(X, ms, ctx[t].rel) /\ Finish(t, "returned", 0) /\ pend' = pend
+                               ELSE NoEmit /\ pend' = [pend EXCEPT ![t] = ms]
+                                    /\ pc' = [pc EXCEPT ![t] = "ctl_emit"] /\ last' = last
   /\ UNCHANGED <<op, left, held, calls, ctx, spins, tr, robs>>
 
 ShutRead(t) ==          \* shutdown(2): self.eof_received = 1 (no lock, pipes stay open)
@@ -284,13 +320,15 @@ ShutRead(t) ==          \* shutdown(2): self.eof_received = 1 (no lock, pipes st
   /\ pc' = [pc EXCEPT ![t] = "shut_lock"]
   /\ UNCHANGED <<outwin, eofSent, closed, pclosed, linked, alive, sofar, buf, tmo>>
   /\ UNCHANGED <<op, left, pend, held, calls, ctx, last, spins, tr, robs>> /\ NoEmit
+  /\ UNCHANGED hb
 
 ShutLocked(t) ==        \* _send_eof under the lock
   LET X == Side(t)  ms == CtlMsgs(X, FALSE) IN
   /\ pc[t] = "shut_lock"
   /\ eofSent' = [eofSent EXCEPT ![X] = TRUE]
-  /\ UNCHANGED <<outwin, eofRecv, closed, pclosed, linked, alive, sofar, buf, tmo>>
-  /\ IF ms = <<>> THEN Finish(t, "returned", 0) /\ pend' = pend /\ NoEmit
+  /\ UNCHANGED <<outwin, eofRecv, closed, pclosed, linked, alive, sofar, buf, tmo, inflight>>
+  /\ ctlq' = [ctlq EXCEPT ![X] = IF Held(X) THEN @ \o ms ELSE @]
+  /\ IF ms = <<>> \/ Held(X) THEN Finish(t, "returned", 0) /\ pend' = pend /\ NoEmit
      ELSE IF FixRace THEN Emit(X, ms, ctx[t].rel) /\ Finish(t, "returned", 0) /\ pend' = pend
      ELSE NoEmit /\ pend' = [pend EXCEPT ![t] = ms] /\ pc' = [pc EXCEPT ![t] = "ctl_emit"] /\ last' = last
   /\ UNCHANGED <<op, left, held, calls, ctx, spins, tr, robs>>
@@ -301,6 +339,7 @@ CtlEmit(t) ==           \* for m in msgs: transport._send_user_message(m)
   /\ pend' = [pend EXCEPT ![t] = Tail(@)]
   /\ IF Len(pend[t]) = 1 THEN Finish(t, "returned", 0) ELSE pc' = pc /\ last' = last
   /\ UNCHANGED <<op, left, held, calls, ctx, spins, chan, tr, robs>>
+  /\ UNCHANGED hb
 
 (* ------------------------------------------------------------------ transport thread of side X *)
 Deliver(X) ==
@@ -308,15 +347,15 @@ Deliver(X) ==
   /\ tpc[X] = "idle" /\ alive[X] /\ wire[Y] # <<>>
   /\ IF ~linked[X]                                   \* "Ignoring message for dead channel"
      THEN /\ wire' = [wire EXCEPT ![Y] = Tail(@)]
-          /\ UNCHANGED <<chan, thr, tr, eobs, robs>>
+          /\ UNCHANGED <<chan, hb, thr, tr, eobs, robs>>
      ELSE CASE m.t = "DATA" ->
             /\ wire' = [wire EXCEPT ![Y] = Tail(@)]
             /\ buf' = [buf EXCEPT ![X].out = @ + m.n]
-            /\ UNCHANGED <<outwin, eofSent, eofRecv, closed, pclosed, linked, alive, sofar, tmo, thr, tr, eobs, robs>>
+            /\ UNCHANGED <<outwin, eofSent, eofRecv, closed, pclosed, linked, alive, sofar, tmo, hb, thr, tr, eobs, robs>>
           [] m.t = "EXT" /\ m.code = 1 ->
             /\ wire' = [wire EXCEPT ![Y] = Tail(@)]
             /\ buf' = [buf EXCEPT ![X].err = @ + m.n]
-            /\ UNCHANGED <<outwin, eofSent, eofRecv, closed, pclosed, linked, alive, sofar, tmo, thr, tr, eobs, robs>>
+            /\ UNCHANGED <<outwin, eofSent, eofRecv, closed, pclosed, linked, alive, sofar, tmo, hb, thr, tr, eobs, robs>>
           [] m.t = "EXT" /\ m.code # 1 ->            \* _feed_extended: "unknown extended_data type; discarding"
             IF FixCredit
             THEN LET r == AddWindow(X, m.n) IN
@@ -328,28 +367,29 @@ Deliver(X) ==
                          /\ granted' = [granted EXCEPT ![Y] = @ + r[2]]
                          /\ adjSent' = [adjSent EXCEPT ![X] = @ + r[2]]
                          /\ UNCHANGED <<sent, nEof, nClose, afterCtl, bigMsg, lateEmit>>
-                 /\ UNCHANGED <<outwin, eofSent, eofRecv, closed, pclosed, linked, alive, buf, tmo, thr, tr, leaked, closeSeen>>
+                 /\ UNCHANGED <<outwin, eofSent, eofRecv, closed, pclosed, linked, alive, buf, tmo, hb, thr, tr, leaked, closeSeen>>
             ELSE /\ wire' = [wire EXCEPT ![Y] = Tail(@)]
                  /\ leaked' = [leaked EXCEPT ![X] = IF closed[X] \/ eofRecv[X] THEN @ ELSE @ + m.n]
-                 /\ UNCHANGED <<chan, thr, tr, eobs, consumed, closeSeen>>
+                 /\ UNCHANGED <<chan, hb, thr, tr, eobs, consumed, closeSeen>>
           [] m.t = "ADJUST" ->                       \* _window_adjust
             /\ wire' = [wire EXCEPT ![Y] = Tail(@)]
             /\ outwin' = [outwin EXCEPT ![X] = @ + m.n]
-            /\ UNCHANGED <<eofSent, eofRecv, closed, pclosed, linked, alive, sofar, buf, tmo, thr, tr, eobs, robs>>
+            /\ UNCHANGED <<eofSent, eofRecv, closed, pclosed, linked, alive, sofar, buf, tmo, hb, thr, tr, eobs, robs>>
           [] m.t = "EOF" ->                          \* _handle_eof
             /\ wire' = [wire EXCEPT ![Y] = Tail(@)]
             /\ IF eofRecv[X] THEN UNCHANGED <<eofRecv, pclosed>>
                              ELSE eofRecv' = [eofRecv EXCEPT ![X] = TRUE] /\ pclosed' = [pclosed EXCEPT ![X] = TRUE]
-            /\ UNCHANGED <<outwin, eofSent, closed, linked, alive, sofar, buf, tmo, thr, tr, eobs, robs>>
+            /\ UNCHANGED <<outwin, eofSent, closed, linked, alive, sofar, buf, tmo, hb, thr, tr, eobs, robs>>
           [] m.t = "CLOSE" ->                        \* _handle_close: _close_internal + _unlink_channel, then emit
             LET ms == IF closed[X] \/ Mut = "no_close_answer" THEN <<>> ELSE CtlMsgs(X, TRUE) IN
             /\ closed' = [closed EXCEPT ![X] = TRUE] /\ pclosed' = [pclosed EXCEPT ![X] = TRUE]
             /\ eofSent' = [eofSent EXCEPT ![X] = TRUE]
             /\ linked' = [linked EXCEPT ![X] = (Mut = "no_unlink")]
             /\ closeSeen' = [closeSeen EXCEPT ![X] = TRUE]
-            /\ UNCHANGED <<outwin, eofRecv, alive, sofar, buf, tmo, thr, consumed, leaked>>
-            /\ IF FixRace \/ ms = <<>>
-                 THEN /\ IF alive[X]
+            /\ UNCHANGED <<outwin, eofRecv, alive, sofar, buf, tmo, thr, consumed, leaked, inflight>>
+            /\ ctlq' = [ctlq EXCEPT ![X] = IF Held(X) THEN @ \o ms ELSE @]
+            /\ IF FixRace \/ ms = <<>> \/ Held(X)
+                 THEN /\ IF alive[X] /\ ~Held(X)
                            THEN /\ wire' = [wire EXCEPT ![Y] = Tail(@), ![X] = @ \o ms]
                                 /\ nEof' = [nEof EXCEPT ![X] = @ + CntIf(ms, {"EOF"})]
                                 /\ nClose' = [nClose EXCEPT ![X] = @ + CntIf(ms, {"CLOSE"})]
@@ -365,6 +405,7 @@ TEmit(X) ==             \* _handle_close, after the lock: for m in msgs: _send_u
   /\ tpend' = [tpend EXCEPT ![X] = Tail(@)]
   /\ tpc' = [tpc EXCEPT ![X] = IF Len(tpend[X]) = 1 THEN "idle" ELSE "t_emit"]
   /\ UNCHANGED <<chan, thr, robs>>
+  /\ UNCHANGED hb
 
 Lost(X) ==              \* Transport.run ends: active = False; every channel gets _unlink()
   /\ Loss /\ alive[X] /\ tpc[X] = "idle"
@@ -372,9 +413,10 @@ Lost(X) ==              \* Transport.run ends: active = False; every channel get
   /\ closed' = [closed EXCEPT ![X] = TRUE] /\ pclosed' = [pclosed EXCEPT ![X] = TRUE]
   /\ linked' = [linked EXCEPT ![X] = FALSE]
   /\ UNCHANGED <<outwin, eofSent, eofRecv, sofar, buf, tmo, thr, tr, robs>> /\ NoEmit
+  /\ UNCHANGED hb
 
 (* ------------------------------------------------------------------ next-state relation *)
-Step(t) == SendEntry(t) \/ SendWake(t) \/ SendEmit(t) \/ SendDone(t)
+Step(t) == SendEntry(t) \/ SendWake(t) \/ SendEmit(t) \/ SendFin(t) \/ FlushEmit(t) \/ SendDone(t)
            \/ (\E n \in ReadSizes : RecvRead(t, n)) \/ RecvEmpty(t) \/ RecvAck(t) \/ RecvEmit(t)
            \/ CloseLocked(t) \/ ShutRead(t) \/ ShutLocked(t) \/ CtlEmit(t)
 Timer(t) == SendTimer(t) \/ RecvTimer(t)
@@ -385,9 +427,10 @@ Next == /\ \/ \E t \in Threads : StartAny(t) \/ Step(t) \/ Timer(t)
         /\ UNCHANGED par
 
 Spec == Init /\ [][Next]_vars
-FairSpec == Spec /\ \A t \in Threads : WF_vars(Step(t) /\ UNCHANGED par)
-                 /\ \A d \in Daemons : WF_vars(StartAny(d) /\ UNCHANGED par)
-                 /\ \A X \in Sides : WF_vars(Deliver(X) /\ UNCHANGED par) /\ WF_vars(TEmit(X) /\ UNCHANGED par)
+FairSpec == /\ Spec
+            /\ (\A t \in Threads : WF_vars(Step(t) /\ UNCHANGED par))
+            /\ (\A d \in Daemons : WF_vars(StartAny(d) /\ UNCHANGED par))
+            /\ (\A X \in Sides : WF_vars(Deliver(X) /\ UNCHANGED par) /\ WF_vars(TEmit(X) /\ UNCHANGED par))
 
 (* ------------------------------------------------------------------ properties *)
 (* C19 *)
@@ -418,8 +461,23 @@ Progress   == \A t \in Users : [](InCall(t) /\ op[t] \in SendOps => <>(~InCall(t
 EofOnce        == \A X \in Sides : nEof[X] <= 1
 CloseOnce      == \A X \in Sides : nClose[X] <= 1
 NoDataAfterCtl == \A X \in Sides : ~afterCtl[X]
+\* a peer CLOSE that was processed is answered; not yet on the wire only while a close() of this side is in its hand-over
+\* gap or (HoldBack) a data hand-over of this side is still in flight with the CLOSE queued behind it.  The observable form
+\* (used by Channel_Trace, which cannot see the queue) excuses "a send or close call of this side is still in progress";
+\* the exact form is checked on the model.  At rest both demand the CLOSE on the wire.
 CloseAnswered  == \A X \in Sides : (closeSeen[X] /\ tpc[X] = "idle" /\ alive[X]) =>
-                     (nClose[X] >= 1 \/ \E t \in ThreadsOf(X) : pc[t] # "idle" /\ op[t] = "close")   \* its close() is in the gap
+                     (nClose[X] >= 1 \/ \E t \in ThreadsOf(X) : pc[t] # "idle" /\ op[t] \in SendOps \cup {"close"})
+CloseAnsweredExact == \A X \in Sides : (closeSeen[X] /\ tpc[X] = "idle" /\ alive[X]) =>
+                     \/ nClose[X] >= 1
+                     \/ \E t \in ThreadsOf(X) : CntIf(pend[t], {"CLOSE"}) > 0          \* being handed over right now
+                     \/ inflight[X] > 0 /\ CntIf(ctlq[X], {"CLOSE"}) > 0                \* held back behind data in flight
+\* liveness forms (FairSpec): a processed peer CLOSE is eventually answered on the wire; the queue eventually drains
+AnsweredEventually == \A X \in Sides : [](closeSeen[X] /\ alive[X] => <>(nClose[X] >= 1 \/ ~alive[X]))
+DrainsEventually   == \A X \in Sides : [](ctlq[X] # <<>> => <>(ctlq[X] = <<>>))
+\* nothing stays queued once no data hand-over is in flight
+QueueDrains    == \A X \in Sides : inflight[X] = 0 => ctlq[X] = <<>>
+\* (not in the statement of C22; protocol hygiene) EOF never follows the side's own CLOSE
+NoEofAfterClose == \A X \in Sides : \A i, j \in 1..Len(wire[X]) : i < j => ~(wire[X][i].t = "CLOSE" /\ wire[X][j].t = "EOF")
 ReleasedInv    == \A X \in Sides : Released(X) => ~linked[X]
 NoSendAfterRelease == /\ \A X \in Sides : ~lateEmit[X]
                       /\ \A t \in Threads : (last[t].rel /\ last[t].op \in SendOps) => last[t].out = "raised"
